@@ -1799,6 +1799,12 @@ func (c *Client) doSetup(
 		return nil, liberrors.ErrClientH264PacketizationMode0{}
 	}
 
+	// Media.URL() returns a nil URL when the control attribute
+	// cannot be combined with the base URL into a valid URL.
+	if mediaURL == nil {
+		return nil, fmt.Errorf("invalid control attribute: '%s'", medi.Control)
+	}
+
 	if isSecure(th.Profile) {
 		var srtpOutKey []byte
 
